@@ -56,6 +56,19 @@ CLAIMED = {
              "protocol model, not by a line-by-line proof; the GC emptying sync.Pool is covered by the arbitrary borrow oracle.",
         tech="Rocq proof (pool non-interference by simulation; redeem protocol by induction on trees; regenerated static lemma) + instrumented history correspondence",
         ref="DESIGN.md 5/C04"),
+    "C05": dict(
+        text="Coq theorems (partial by design): exclusive ownership - two live tenures never share a physical pooled object, for every "
+             "client, in particular any merge of the command streams of any number of goroutines; what a disciplined client reads "
+             "and outputs is independent of the pool; every access to the package default options happens with the mutex held and "
+             "at most one goroutine holds it; a validator's private copy of the options is a value that was set; the regexp cache has "
+             "one writer at a time. Tie: 2..64 goroutines with seeded programs (one-shot validation, shared long-lived validators, "
+             "parameter validators, whole-spec validation, Pattern, SetContinueOnErrors) under the Go race detector with poisoning "
+             "on; zero race reports, and every outcome equal to the same call alone.",
+        note=TB + "No axioms. Partial: the Go memory model, the accesses generated by the compiler and the scheduler are not modelled; "
+             "'no data race' is proved for the model's access events (atomic pool / mutex / atomic.Value steps) and observed by the race "
+             "detector on the sampled schedules.",
+        tech="Rocq proof (ownership invariant of the pool simulation; mutex discipline of the shared options and cache, over all interleavings) + race-detector correspondence",
+        ref="DESIGN.md 5/C05"),
     "C11": dict(
         text="Coq theorem over the redeem protocol with Go's unwinding semantics: for every validator tree and every abort point k (the "
              "k-th invocation of caller-supplied code panics, deferred functions run innermost first) every validator object is "
@@ -89,6 +102,17 @@ CLAIMED = {
              "and DeepEqual are transcribed for the kinds the harness generates (no structs, channels, funcs).",
         tech="Rocq proof (UTF-8 rune counting by case analysis over the encoding, helper specifications) + helper correspondence",
         ref="DESIGN.md 5/C14"),
+    "C15": dict(
+        text="Coq theorems over a small-step interleaving semantics of compileRegexp / cacheRegexp (atomic load, compile, lock, "
+             "re-load, copy + insert keyed by the expression's source text, store, unlock) with any number of threads: in every "
+             "reachable state a cache entry is the compilation of its key; every completed call returns the compilation (or the "
+             "error) of the very pattern it was asked for; invalid patterns are never cached; entries are never lost or replaced; "
+             "one writer at a time. regexp.Compile and String() are parameters with the single assumption source(compile p) = p. "
+             "Tie: sequential histories compare every answer with a private regexp.Compile and the cache key set after every "
+             "operation; concurrent histories on 1..64 goroutines under the race detector.",
+        note=TB + "No axioms. Partial as C05: atomicity of atomic.Value and sync.Mutex operations is the step granularity of the model.",
+        tech="Rocq proof (invariant over all interleavings of the cache protocol) + cache-content correspondence + race detector",
+        ref="DESIGN.md 5/C15"),
     "C16": dict(
         text="Coq theorems over the model of ParamValidator / HeaderValidator / itemsValidator: nil is not validated, every other value "
              "is; the first-error exit of the six-validator chain is sound (the verdict is the conjunction of all applicable groups). "
